@@ -683,23 +683,63 @@ output_executor_backup_call (OrcProgram *p, FILE *output)
 {
   OrcVariable *var;
   int i;
+  const char *sep = "";
+
+  /* the backup function has the prototype of the generated function:
+   * accumulators are passed by address, a double parameter is put together
+   * from its two halves, n and m are left out when they are constants */
+  for(i=0;i<4;i++){
+    var = &p->vars[ORC_VAR_A1 + i];
+    if (var->size) {
+      if (var->type_name) {
+        fprintf(output, "  %s %s = 0;\n", orcify_typename(var->type_name),
+            varnames[ORC_VAR_A1 + i]);
+      } else {
+        fprintf(output, "  orc_uint%d %s = 0;\n", var->size*8,
+            varnames[ORC_VAR_A1 + i]);
+      }
+    }
+  }
+  for(i=0;i<8;i++){
+    var = &p->vars[ORC_VAR_P1 + i];
+    if (var->size && var->param_type == ORC_PARAM_TYPE_DOUBLE) {
+      fprintf(output, "  orc_union64 %s;\n", varnames[ORC_VAR_P1 + i]);
+    }
+  }
+  for(i=0;i<8;i++){
+    var = &p->vars[ORC_VAR_P1 + i];
+    if (var->size && var->param_type == ORC_PARAM_TYPE_DOUBLE) {
+      fprintf(output, "  %s.i = (ex->params[%s] & 0xffffffff) | ((orc_uint64)(ex->params[%s]) << 32);\n",
+          varnames[ORC_VAR_P1 + i], enumnames[ORC_VAR_P1 + i],
+          enumnames[ORC_VAR_T1 + i]);
+    }
+  }
 
   fprintf(output, "  %s (", p->backup_name);
   for(i=0;i<4;i++){
     var = &p->vars[ORC_VAR_D1 + i];
     if (var->size) {
-      fprintf(output, "ex->arrays[%s], ", enumnames[ORC_VAR_D1 + i]);
+      fprintf(output, "%sex->arrays[%s]", sep, enumnames[ORC_VAR_D1 + i]);
+      sep = ", ";
       if (p->is_2d) {
-        fprintf(output, "ex->params[%s], ", enumnames[ORC_VAR_D1 + i]);
+        fprintf(output, ", ex->params[%s]", enumnames[ORC_VAR_D1 + i]);
       }
+    }
+  }
+  for(i=0;i<4;i++){
+    var = &p->vars[ORC_VAR_A1 + i];
+    if (var->size) {
+      fprintf(output, "%s&%s", sep, varnames[ORC_VAR_A1 + i]);
+      sep = ", ";
     }
   }
   for(i=0;i<8;i++){
     var = &p->vars[ORC_VAR_S1 + i];
     if (var->size) {
-      fprintf(output, "ex->arrays[%s], ", enumnames[ORC_VAR_S1 + i]);
+      fprintf(output, "%sex->arrays[%s]", sep, enumnames[ORC_VAR_S1 + i]);
+      sep = ", ";
       if (p->is_2d) {
-        fprintf(output, "  ex->params[%s], ", enumnames[ORC_VAR_S1 + i]);
+        fprintf(output, ", ex->params[%s]", enumnames[ORC_VAR_S1 + i]);
       }
     }
   }
@@ -708,36 +748,39 @@ output_executor_backup_call (OrcProgram *p, FILE *output)
     if (var->size) {
       switch (var->param_type) {
         case ORC_PARAM_TYPE_INT:
-          fprintf(output, "ex->params[%s],", enumnames[ORC_VAR_P1 + i]);
+          fprintf(output, "%sex->params[%s]", sep, enumnames[ORC_VAR_P1 + i]);
           break;
         case ORC_PARAM_TYPE_FLOAT:
-          fprintf(output, "((orc_union32 * )&ex->params[%s])->f, ",
+          fprintf(output, "%s((orc_union32 * )&ex->params[%s])->f", sep,
               enumnames[ORC_VAR_P1 + i]);
           break;
         case ORC_PARAM_TYPE_INT64:
-          fprintf(output, "(ex->params[%s] & 0xffffffff) | ((orc_uint64)(ex->params[%s]) << 32), ", enumnames[ORC_VAR_P1 + i], enumnames[ORC_VAR_T1 + i]);
+          fprintf(output, "%s(ex->params[%s] & 0xffffffff) | ((orc_uint64)(ex->params[%s]) << 32)", sep, enumnames[ORC_VAR_P1 + i], enumnames[ORC_VAR_T1 + i]);
           break;
         case ORC_PARAM_TYPE_DOUBLE:
-          /* FIXME */
+          fprintf(output, "%s%s.f", sep, varnames[ORC_VAR_P1 + i]);
           break;
         default:
           ORC_ASSERT(0);
       }
+      sep = ", ";
     }
   }
-  if (p->constant_n) {
-    fprintf(output, "%d", p->constant_n);
-  } else {
-    fprintf(output, "ex->n");
+  if (p->constant_n == 0) {
+    fprintf(output, "%sex->n", sep);
+    sep = ", ";
   }
-  if (p->is_2d) {
-    if (p->constant_m) {
-      fprintf(output, ",  %d", p->constant_m);
-    } else {
-      fprintf(output, ", ORC_EXECUTOR_M(ex)");
-    }
+  if (p->is_2d && p->constant_m == 0) {
+    fprintf(output, "%sORC_EXECUTOR_M(ex)", sep);
   }
   fprintf(output, ");\n");
+  for(i=0;i<4;i++){
+    var = &p->vars[ORC_VAR_A1 + i];
+    if (var->size) {
+      fprintf(output, "  ex->accumulators[%d] = %s;\n", i,
+          varnames[ORC_VAR_A1 + i]);
+    }
+  }
 }
 
 void
@@ -745,43 +788,49 @@ output_backup_call (OrcProgram *p, FILE *output)
 {
   OrcVariable *var;
   int i;
+  const char *sep = "";
 
   fprintf(output, "  %s (", p->backup_name);
   for(i=0;i<4;i++){
     var = &p->vars[ORC_VAR_D1 + i];
     if (var->size) {
-      fprintf(output, "%s, ", varnames[ORC_VAR_D1 + i]);
+      fprintf(output, "%s%s", sep, varnames[ORC_VAR_D1 + i]);
+      sep = ", ";
       if (p->is_2d) {
-        fprintf(output, "%s_stride, ", varnames[ORC_VAR_D1 + i]);
+        fprintf(output, ", %s_stride", varnames[ORC_VAR_D1 + i]);
       }
+    }
+  }
+  for(i=0;i<4;i++){
+    var = &p->vars[ORC_VAR_A1 + i];
+    if (var->size) {
+      fprintf(output, "%s%s", sep, varnames[ORC_VAR_A1 + i]);
+      sep = ", ";
     }
   }
   for(i=0;i<8;i++){
     var = &p->vars[ORC_VAR_S1 + i];
     if (var->size) {
-      fprintf(output, "%s, ", varnames[ORC_VAR_S1 + i]);
+      fprintf(output, "%s%s", sep, varnames[ORC_VAR_S1 + i]);
+      sep = ", ";
       if (p->is_2d) {
-        fprintf(output, "%s_stride, ", varnames[ORC_VAR_S1 + i]);
+        fprintf(output, ", %s_stride", varnames[ORC_VAR_S1 + i]);
       }
     }
   }
   for(i=0;i<8;i++){
     var = &p->vars[ORC_VAR_P1 + i];
     if (var->size) {
-        fprintf(output, "%s, ", varnames[ORC_VAR_P1 + i]);
+      fprintf(output, "%s%s", sep, varnames[ORC_VAR_P1 + i]);
+      sep = ", ";
     }
   }
-  if (p->constant_n) {
-    fprintf(output, "%d", p->constant_n);
-  } else {
-    fprintf(output, "n");
+  if (p->constant_n == 0) {
+    fprintf(output, "%sn", sep);
+    sep = ", ";
   }
-  if (p->is_2d) {
-    if (p->constant_m) {
-      fprintf(output, ", %d", p->constant_m);
-    } else {
-      fprintf(output, ", m");
-    }
+  if (p->is_2d && p->constant_m == 0) {
+    fprintf(output, "%sm", sep);
   }
   fprintf(output, ");\n");
 }
